@@ -287,11 +287,21 @@ def canon (c : Config) (P : Params) (names : List Bytes) (r : Result) : String :
   canonS c names.length r ++ " h=" ++
   joinOr ";" ((r.servers.filter fun kv => kv.2.listen.any fun a => coversPort a (httpPort c)).map (showDispatch c P names))
 
+/-- `TLS.managing` after phase 2: per name `0` not handed to certmagic, `i` handed over under a
+    policy whose only issuer is the internal one (issuer key recorded), `a` otherwise -/
+def showManaging (P : Params) (names : List Bytes) (r : Result) : String :=
+  String.join ((List.range names.length).map fun d =>
+    if (managedOf names r.certs).contains d then
+      (match policyFor P d r.policies with
+       | some p => if p.issuers = [Issuer.internal] then "i" else "a"
+       | none => "a")
+    else "0")
+
 def showOutcome (c : Config) (P : Params) (names : List Bytes) : Outcome → String
   | .errTLS => "err:tls"
   | .errMatcher => "err:matcher"
   | .errAddr => "err:addr"
-  | .ok r => canon c P names r
+  | .ok r => canon c P names r ++ " m=" ++ showManaging P names r
 
 def parseSite (s : String) : Option Site :=
   match s.splitOn "." with
